@@ -164,6 +164,7 @@ func (l *_LexerStateMachine) PushRune(r rune) int {
 
 func (l *_LexerStateMachine) Reset() {
 	l.mode = nil
+	l.modeStack = l.modeStack[:0]
 	l.state = 0
 	l.pending = false
 	l.matched = false
